@@ -99,6 +99,17 @@ Definition run_base (full : bool) (name : string) (j : json) : string :=
   else if S name "union" then on_obj full remove_union_that_fail j
   else if S name "alias_edfa" then match j with JObj o => render_alias full (expand_edfa o) | _ => "E:TypeError" end
   else if S name "alias_trx" then match j with JObj o => render_alias full (expand_trx o) | _ => "E:TypeError" end
+  else if S name "alias_modes" then
+    match (match j with JObj o => jget "modes" o | _ => None end) with
+    | Some (JArr l) => match mapM as_obj l with
+                | Ok ms => match expand_modes ms with
+                           | Ok r => show full (JArr (map JObj r))
+                           | Err e => append "E:" e
+                           end
+                | Err e => append "E:" e
+                end
+    | _ => "E:TypeError"
+    end
   else "E:unknown function"%string.
 
 (* "Y.f": f applied to the YANG form computed by the model; "B.f": f applied to the document the back
